@@ -143,7 +143,8 @@ def endDriver (s : St) (how : Drv) : St :=
     if s.opQ.contains j then { o with phase := .taken, mail := dropIf o.mail }
     else if s.resultmap.any (fun p => p.2 == j) then { o with mail := dropIf o.mail }
     else o
-  { s with ops := ops', opQ := [], resultmap := [], searchmap := [], drv := how }
+  -- `drive` clears the ID table when the loop is over (fix F22)
+  { s with ops := ops', opQ := [], resultmap := [], searchmap := [], drv := how, inUse := [] }
 
 /-- does channel `c` still have a sender? (a clone in `searchmap`, or the original travelling in the op queue) -/
 def chanOpen (s : St) (c : Nat) : Bool :=
@@ -232,9 +233,10 @@ def step (s : St) (e : Ev) : Option (St × Obs) :=
     | some o =>
       if o.phase ≠ .allocated then none
       else if s.drv ≠ .running then
-        -- the queue's receiver is gone: `Err(OpSend)`; the ID stays allocated (dead connection);
+        -- the queue's receiver is gone: `Err(OpSend)`; the ID is released (fix F22);
         -- the request (and a search's item sender in it) is dropped
-        some ({ s with ops := s.ops.set i { o with res := some .opSendErr, phase := .taken, mail := .dropped } }, .sendErr)
+        some ({ s with ops := s.ops.set i { o with res := some .opSendErr, phase := .taken, mail := .dropped },
+                       inUse := eraseId s.inUse o.id }, .sendErr)
       else
         some ({ s with ops := s.ops.set i { o with phase := .queued, deadline := tmo.map (s.now + ·) },
                        opQ := s.opQ ++ [i] }, .none)
